@@ -123,6 +123,18 @@ fn handle_with(op: &str, a: &[&str], pf: Preferences) -> Option<String> {
             let read = |name: &str| std::fs::read_to_string(dir.join(name)).unwrap_or_else(|_| "<missing>".into());
             let rels = read("relations.sieve");
             let cn = read("classnumber");
+            // coordinates of the eliminated primes (group.structure.extra: `p x1 x2 ...`)
+            let extra = std::fs::read_to_string(dir.join("group.structure.extra"))
+                .unwrap_or_default()
+                .lines()
+                .map(|l| {
+                    let mut it = l.split_whitespace();
+                    let p = it.next().unwrap_or("?").to_string();
+                    let v: Vec<&str> = it.collect();
+                    format!("{p}:{}", if v.is_empty() { "-".to_string() } else { v.join(",") })
+                })
+                .collect::<Vec<_>>()
+                .join(";");
             let res = match g {
                 None => "none".into(),
                 Some(g) => {
@@ -139,12 +151,13 @@ fn handle_with(op: &str, a: &[&str], pf: Preferences) -> Option<String> {
                         .collect::<Vec<_>>()
                         .join(";");
                     format!(
-                        "{} {} | {} | {} | classnumber={}",
+                        "{} {} | {} | {} | classnumber={} | extra={}",
                         g.h,
                         show_inv(&g.invariants),
                         if gens.is_empty() { "-".into() } else { gens },
                         if rl.is_empty() { "-".into() } else { rl },
-                        cn.trim()
+                        cn.trim(),
+                        if extra.is_empty() { "-".into() } else { extra }
                     )
                 }
             };
